@@ -584,9 +584,16 @@ var rAlwaysWraps = &Rule{
 					case *ssa.ChangeInterface:
 						walk(x.X, lits, d+1)
 					case *ssa.MakeInterface:
-						if _, isAl := x.X.(*ssa.Alloc); !isAl {
+						switch x.X.(type) {
+						case *ssa.Alloc:
+						case *ssa.Call, *ssa.Phi:
+							// a wrapper handed out under its pointer type by a constructor helper
+							walk(x.X, lits, d+1)
+						default:
 							res = "returns a boxed " + describeVal(x.X) + " at " + p.Pos(ret.Pos())
 						}
+					case *ssa.Alloc:
+						// a fresh wrapper under its pointer type (in a constructor helper)
 					case *ssa.Parameter:
 						if x == fn.Params[pi] {
 							// passing the error through is acceptable only when the decision does not look at the error
@@ -633,7 +640,14 @@ var rAlwaysWraps = &Rule{
 						res = "returns " + describeVal(v) + " at " + p.Pos(ret.Pos())
 					}
 				}
-				walk(ret.Results[ei], dominatingLits(ret.Block()), 0)
+				ri := ei
+				if ri < 0 {
+					ri = 0 // a constructor helper returning the wrapper's pointer type
+				}
+				if ri >= len(ret.Results) {
+					continue
+				}
+				walk(ret.Results[ri], dominatingLits(ret.Block()), 0)
 			}
 			memo[k] = res
 			return res
